@@ -230,6 +230,10 @@ def classify(f, v, stage, exn, ctx=None):
         # a member of ANOTHER (mix-in) enum class that compares equal to a declared member (LevelIV.OFF == 0 == RatioFN.ZERO):
         # accepted by Enum._validate through ==, stored as given -- same family as F27
         return "enumcls:holding-equal-member-of-another-enum-class"
+    if t == "enumcls" and v[0] in ("dec", "int", "flt", "bool"):
+        # a number that is == to a member of a mix-in enum (Decimal('0') == LevelIV.OFF) is accepted by Enum._validate and
+        # stored as given: not a member, so it has no .value/.name to serialize -- same family as F27 / F27b
+        return "enumcls:holding-equal-value-that-is-not-a-member"
     if t == "enumlit" and v[0] == "dec":
         return "enumlit:holding-Decimal"
     return "shape=" + G.shape(f) + "/value=" + v[0]
